@@ -12,7 +12,7 @@ from ..util import eq_struct, mutated
 PROPERTY = "C19"
 ENCODED = ["pylife.mesh.hotspot:HotSpot.calc", "pylife.mesh.hotspot:HotSpot._HotSpot__hs_sel"]
 STUBS = []
-ASSUMPTIONS = ["field values are symbolic, positive and pairwise distinct (distinct peaks; ties in the numbering are not specified)",
+ASSUMPTIONS = ["field values are symbolic (any sign) and pairwise distinct (distinct peaks; ties in the numbering are not specified)",
                "meshes are concrete and enumerated (2-3 elements, shared nodes / disconnected / chains, id gaps, shuffled rows)",
                "oracle: union-find components of the entries >= fraction * maximum under shared-node / shared-element "
                "adjacency, numbered by descending peak"]
@@ -115,10 +115,9 @@ def run(ctx, case):
     frac = case["frac"]
     n = len(entries)
     vals = [ctx.real("v%d" % i) for i in range(n)]
-    for v in vals:
-        ctx.assume(v > 0)
+    # any sign: for a purely compressive (all-negative) field fraction * maximum lies above the maximum
     ctx.assume(sym_and(*[a != b for a, b in itertools.combinations(vals, 2)]))
-    ctx.hint(sym_and(*[v <= 32 for v in vals]))
+    ctx.hint(sym_and(*[sym_and(v <= 32, v >= -32) for v in vals]))
     idx = pd.MultiIndex.from_tuples(entries, names=["element_id", "node_id"])
     dt = object if ctx.sym else np.float64
     df = pd.DataFrame({"x": np.zeros(n), "y": np.zeros(n), "z": np.zeros(n), "val": np.array(vals, dtype=dt)}, index=idx)
